@@ -11,6 +11,17 @@ COMMON_NOTE = ("Trusted: Coq 8.16.1 kernel incl. vm_compute (no native_compute, 
                "generators and spec oracles; /venv python 3.12. ")
 
 CHECKS = {
+    "C19": {
+        "text": ("Theorems about the decision logic of every documented guard over the argument grammar (int, bool, numpy "
+                 "integer, float, Fraction, numpy float, str, None): integral values of any numeric type are accepted as "
+                 "the integer they equal; negative counts/repetitions are ValueError; non-integral ones TypeError (the "
+                 "type-checker's error for non-numbers when it is on); positions out of range IndexError, non-index "
+                 "types TypeError; illegal limits, inverted within bounds, both limits, RollOutcome(None) rejected. "
+                 "Correspondence: the whole grammar x every entry point enumerated EXHAUSTIVELY with NUMERARY_BEARTYPE "
+                 "off and on, operands snapshotted before and after each call."),
+        "note": "beartype modelled as a mode flag; numpy scalars by exact value and kind; axioms: none.",
+        "design": "5/C19",
+    },
     "C01": {
         "text": ("Theorems for every outcome type with a decidable total order and every operator (an arbitrary function): "
                  "the count of z in a op b is the sum of a[x]*b[y] over pairs with x op y = z; total = product; scalar and "
@@ -121,6 +132,17 @@ CHECKS = {
                  "against an independent enumerator."),
         "note": "PARTIAL: fairness of random.Random.choices assumed; substitution expansions restricted to keep / fixed outcome / re-roll the source; axioms: none.",
         "design": "5/C11",
+    },
+    "C13": {
+        "text": ("Theorems: a memo table keyed by K answers every history of calls like first calls iff K determines the "
+                 "answer (both directions); the repaired key of the process-wide partial-selection memo (exact typed items) "
+                 "does; the key the pinned code used (H.__eq__/__hash__) is REFUTED with vm_compute witnesses "
+                 "(representation twins 1 vs 1.0, zero-count padding); the per-instance order-statistic cache is "
+                 "transparent for every call history. Correspondence: every generated history over colliding families "
+                 "runs warm in one fresh interpreter and each query cold in its own fresh interpreter; answers must be "
+                 "identical including outcome types; selection sums also against the cache-free proved model."),
+        "note": "functools.cache modelled as a finite map on a key function; 'cold' = a fresh interpreter process; axioms: none.",
+        "design": "5/C13",
     },
     "C14": {
         "text": ("Theorems over the interpreter model with the ContextVar as threaded state and an injected exception at "
